@@ -151,6 +151,18 @@ def main(argv):
     if prop == 'C16':
         return run_parser_property(prop, job=props.c16_job,
                                    extra=lambda rs: dict(differential_comparisons=sum(r.get('comparisons', 0) for r in rs), extra_forks_on_trivia_free_side=sum(r.get('extra_forks', 0) for r in rs)))
+    if prop == 'C15':
+        def gsel(t, sd):
+            gs = select('C15', t, sd)
+            gs = [g for g in gs if g.meta.get('family') != 'near_miss']
+            if t == 'quick':      # every third coverage grammar + all curated/random
+                cov = [g for g in gs if g.meta.get('family') == 'coverage']
+                gs = [g for g in gs if g.meta.get('family') != 'coverage'] + cov[sd % 3::3]
+            return gs
+        return run_parser_property(prop, job=props.c15_job, N={'quick': 3, 'thorough': 5}[tier()], grammars=gsel,
+                                   extra=lambda rs: dict(differential_comparisons=sum(r.get('comparisons', 0) for r in rs),
+                                                         permutations=sum(r.get('permutations', 0) for r in rs),
+                                                         byte_identical_generated_code=sum(r.get('identical_outputs', 0) for r in rs)))
     if prop == 'C07':
         from . import c07
         return run_parser_property(prop, job=c07.c07_job, N={'quick': 5, 'thorough': 7}[tier()],
